@@ -28,12 +28,35 @@ func TestStressPriorityV1(t *testing.T) {
 			in1, in2, in3 := make(chan int, 2), make(chan int), make(chan int, 1)
 			out := make(chan priority.Prioritized[int], 3)
 			fb := make(chan uint, 3)
+			// the map handed to New stays the caller's: it keeps reading (and, at the end, checks) it while inputs are added and removed
+			userInputs := map[uint]<-chan int{3: in1, 2: in2}
 			dsc, err := priority.New(priority.Opts[int]{Ctx: ctx, Divider: priority.RateDivider, Feedback: fb, HandlersQuantity: 12,
-				Inputs: map[uint]<-chan int{3: in1, 2: in2}, Output: out})
+				Inputs: userInputs, Output: out})
 			if err != nil {
 				t.Fatal(err)
 			}
 			quit := make(chan struct{})
+			var reader sync.WaitGroup
+			reader.Add(1)
+			go func() {
+				defer reader.Done()
+				for {
+					n := 0
+					for range userInputs {
+						n++
+					}
+					if n != 2 {
+						t.Errorf("the caller's Inputs map has %d entries, it was created with 2", n)
+						return
+					}
+					select {
+					case <-quit:
+						return
+					default:
+						time.Sleep(20 * time.Microsecond)
+					}
+				}
+			}()
 			var producers, handlers sync.WaitGroup
 			produce := func(ch chan int) {
 				defer producers.Done()
@@ -86,6 +109,7 @@ func TestStressPriorityV1(t *testing.T) {
 			close(quit)
 			handlers.Wait()
 			producers.Wait()
+			reader.Wait()
 			cancel()
 		}
 	}
